@@ -332,11 +332,13 @@ func chainsFromTok(tok string) ([][]*x509.Certificate, error) {
 
 type authnSUT struct {
 	oidc *oidcFixture
+	pki  *pkiFixture
 }
 
 func newAuthnSUT() *authnSUT { return &authnSUT{} }
 
 type authnResult struct {
+	rejected bool // the TLS handshake was refused: there is no request
 	crash  bool
 	caller *security.Caller
 	err    error
@@ -348,6 +350,8 @@ func (r authnResult) format() string {
 	switch {
 	case r.fixErr != nil:
 		return "fixture-failed " + wire.Enc(r.fixErr.Error())
+	case r.rejected:
+		return "reject"
 	case r.crash:
 		return "crash"
 	case r.err != nil:
@@ -362,6 +366,7 @@ func (r authnResult) format() string {
 
 // prepared is a real authenticator plus the transport-level ingredients of the request it is to see.
 type prepared struct {
+	rejected bool
 	auth     security.Authenticator
 	http     bool
 	md       metadata.MD // gRPC metadata / HTTP headers
@@ -499,6 +504,12 @@ func (s *authnSUT) prepare(f []string) (*prepared, error) {
 			p.authInfo = credentials.TLSInfo{State: st}
 			p.httpTLS = &st
 		}
+	case "tlscert":
+		rej, err := s.prepareTLSCert(f, p)
+		if err != nil {
+			return nil, err
+		}
+		p.rejected = rej
 	default:
 		return nil, errors.New("unknown authenticator " + f[0])
 	}
@@ -536,6 +547,9 @@ func (s *authnSUT) run(f []string) (res authnResult) {
 	p, err := s.prepare(f[1:])
 	if err != nil {
 		return authnResult{fixErr: err}
+	}
+	if p.rejected {
+		return authnResult{rejected: true}
 	}
 	c, err := p.auth.Authenticate(p.authContext())
 	return authnResult{caller: c, err: err, via: *p.via}
